@@ -230,13 +230,17 @@ def scenarios(tier, rnd):
         sc = {"kind": kind, "body": body, "progs": progs}
         assert feasible(sc), sc
         scs.append(sc)
+    full = tier == "thorough"
     # ---- delay: 2-4 threads racing to force one delay
-    for body in ("val", "slow", "throw1", "throw"):
+    for body in ("val", "throw1", "slow", "throw"):
+        main = full or body in ("val", "throw1")
         for n in (2, 3, 4):
-            add("delay", body, [["deref"]] * n)
+            if main or n == 2 or (n == 3 and body == "slow"):
+                add("delay", body, [["deref"]] * n)
         add("delay", body, [["realized", "deref"], ["deref", "realized"]])
-        add("delay", body, [["deref", "deref"], ["force", "realized"]])
-        add("delay", body, [["realized", "realized"], ["deref"], ["realized", "deref"]])
+        if main:
+            add("delay", body, [["deref", "deref"], ["force", "realized"]])
+            add("delay", body, [["realized", "realized"], ["deref"], ["realized", "deref"]])
     # ---- promise: deliver / deref / timed deref / realized?
     P = [[["deliver1"], ["deref"]],
          [["deliver1"], ["dereft"]],
@@ -245,20 +249,24 @@ def scenarios(tier, rnd):
          [["deliver1", "deliver2", "deref"], ["dereft", "dereft"]],
          [["deliver1"], ["dereft", "realized"]],
          [["deliver1"], ["realized", "realized"], ["realized", "dereft"]],
-         [["deliver1"], ["realized", "deref"], ["dereft", "deref"]],
          [["realized", "deliver1", "realized"], ["deliver2", "dereft"]],
-         [["deliver1"], ["deliver2"], ["deref"], ["dereft"]],
-         [["deliver1", "deref"], ["deliver2", "deref"], ["deref"], ["dereft", "realized"]]]
+         [["deliver1"], ["deliver2"], ["deref"], ["dereft"]]]
+    if full:
+        P += [[["deliver1"], ["realized", "deref"], ["dereft", "deref"]],
+              [["deliver1", "deref"], ["deliver2", "deref"], ["deref"], ["dereft", "realized"]]]
     for progs in P:
         add("promise", "-", progs)
     # ---- future: body's value / exception (also TimeoutError) for every dereffing thread
-    for body in ("val", "slow", "throw", "timeout"):
+    for body in ("val", "timeout", "slow", "throw"):
+        main = full or body in ("val", "timeout")
         add("future", body, [["deref"]])
         add("future", body, [["dereft"]])
         add("future", body, [["deref"], ["dereft"]])
-        add("future", body, [["realized", "deref"], ["dereft", "realized"]])
-        add("future", body, [["realized", "realized"], ["dereft", "dereft"]])
-        add("future", body, [["deref"], ["deref", "realized"], ["dereft"]])
+        if main or body == "slow":
+            add("future", body, [["realized", "deref"], ["dereft", "realized"]])
+        if main:
+            add("future", body, [["realized", "realized"], ["dereft", "dereft"]])
+            add("future", body, [["deref"], ["deref", "realized"], ["dereft"]])
     if tier == "thorough":
         ops = {"delay": ["deref", "deref", "realized", "force"],
                "promise": ["deliver1", "deliver2", "deref", "dereft", "realized"],
@@ -280,7 +288,7 @@ def scenarios(tier, rnd):
 def validate(chk, traces, devs="none", tag=""):
     """batch trace validation against Deferred.tla (devs: 'none' or one deviation name); -> accepted ids"""
     acc = set()
-    B = 4000
+    B = 8000
     for off in range(0, len(traces), B):
         part = traces[off:off + B]
         p = tlc.write_json("deferred_traces_%s%d" % (tag, off), part)
@@ -365,15 +373,13 @@ def judge(chk, traces, origin, direction="code->spec"):
     rej = [i for i in range(len(traces)) if (i + 1) not in acc]
     # second opinion: is a rejected history explained by exactly one named deviation of the as-built model?
     explained = {}
-    for kind, dev in DEVIATIONS.items():
-        idx = [i for i in rej if traces[i]["kind"] == kind]
-        if not idx:
-            continue
-        sub = [dict(traces[i], id=j + 1) for j, i in enumerate(idx)]
-        acc2 = validate(chk, sub, devs=dev, tag=kind[0])
-        for j, i in enumerate(idx):
-            if (j + 1) in acc2:
-                explained[i] = dev
+    if rej:
+        sub = [dict(traces[i], id=j + 1) for j, i in enumerate(rej)]
+        # both deviations are enabled at once: each is confined to its own kind of object
+        acc2 = validate(chk, sub, devs="both", tag="dev")
+        for j, i in enumerate(rej):
+            if (j + 1) in acc2 and traces[i]["kind"] in DEVIATIONS:
+                explained[i] = DEVIATIONS[traces[i]["kind"]]
     ndiag = 0
     per_sig = {}
     for i in rej:
@@ -414,7 +420,7 @@ def run(chk):
                 "history in which two calls overlap")
     scs = scenarios(chk.tier, rnd)
     max_pre = 2 if chk.tier == "quick" else 3
-    limit = 900 if chk.tier == "quick" else 12000
+    limit = 650 if chk.tier == "quick" else 12000
     ctx = mp.get_context("fork")
     with ctx.Pool(14) as pool:           # forked before any thread exists in this process
         collect = design_checks(chk)     # TLC design checks run in the background meanwhile
